@@ -265,6 +265,22 @@ def _bn_stats(obj, cfg):
             k += 1
 
 
+def _image_flow(c):
+    """a flow on image-shaped data whose transform changes the event shape (squeeze 1x4x4 -> 4x2x2) before a normal on the squeezed shape"""
+    t = T.CompositeTransform([T.PointwiseAffineTransform(shift=0.2, scale=1.5), T.SqueezeTransform(), T.ActNorm(4)])
+    emb = None if c["context"] != "embedded" else Emb(3, 2)
+    return FL.Flow(t, D.StandardNormal([4, 2, 2]), embedding_net=emb)
+
+
+def _image_flow_post(obj, cfg):
+    for m in obj.modules():
+        if isinstance(m, T.ActNorm):
+            with torch.no_grad():
+                m.initialized.fill_(True)  # (data-dependent initialisation is C14's subject; here the layer carries its pattern parameters)
+
+
+reg(DSubject("ImageFlow", {"context": ["raw", None, "embedded"]}, _image_flow, lambda c: (1, 4, 4), ctx_shape=lambda c: None if c["context"] is None else ((2,) if c["context"] == "raw" else (3,)),
+             is_flow=True, post=_image_flow_post))
 reg(DSubject("MaskedAutoregressiveFlow", {"features": [2, 1, 3], "layers": [2, 1], "blocks": [1, 0], "residual": [True, False], "random": ["none", "masks", "perms"], "bn_within": [False, True], "bn_between": [False, True]},
              lambda c: FL.MaskedAutoregressiveFlow(c["features"], 5, c["layers"], c["blocks"], use_residual_blocks=c["residual"], use_random_masks=c["random"] == "masks",
                                                    use_random_permutations=c["random"] == "perms", batch_norm_within_layers=c["bn_within"], batch_norm_between_layers=c["bn_between"]),
